@@ -101,6 +101,10 @@ struct World {
     allow_meminit: bool,
     /// sites injected as function-exit instrumentation (a special mode: lowered at encode time)
     special_sites: Vec<u32>,
+    /// parsed function imports declared with the non-final type 2 (uid of the import, and the handle that designates it)
+    subtyped: Vec<(u32, usize)>,
+    /// the global (uid) whose type is a reference to that type
+    typed_global: Option<u32>,
 }
 
 impl World {
@@ -181,11 +185,20 @@ fn site_ops<'a>(sp: Sp, variant: usize, idx: u32, idx2: u32) -> Vec<Operator<'a>
             12 => vec![c0(), I64Load32U { memarg: memarg(idx, 2) }, Drop],
             13 => vec![c0(), F64Const { value: wasmparser::Ieee64::from(0f64) }, F64Store { memarg: memarg(idx, 3) }],
             14 => vec![c0(), c0(), c0(), I32AtomicRmwCmpxchg { memarg: memarg(idx, 2) }, Drop],
-            _ => vec![c0(), c0(), I64Const { value: 0 }, MemoryAtomicWait32 { memarg: memarg(idx, 2) }, Drop],
+            15 => vec![c0(), c0(), I64Const { value: 0 }, MemoryAtomicWait32 { memarg: memarg(idx, 2) }, Drop],
+            // the eight SIMD lane accesses: a memory immediate and a lane immediate
+            16 => vec![c0(), c0(), I8x16Splat, V128Load8Lane { memarg: memarg(idx, 0), lane: 0 }, Drop],
+            17 => vec![c0(), c0(), I8x16Splat, V128Load16Lane { memarg: memarg(idx, 1), lane: 0 }, Drop],
+            18 => vec![c0(), c0(), I8x16Splat, V128Load32Lane { memarg: memarg(idx, 2), lane: 0 }, Drop],
+            19 => vec![c0(), c0(), I8x16Splat, V128Load64Lane { memarg: memarg(idx, 3), lane: 0 }, Drop],
+            20 => vec![c0(), c0(), I8x16Splat, V128Store8Lane { memarg: memarg(idx, 0), lane: 0 }],
+            21 => vec![c0(), c0(), I8x16Splat, V128Store16Lane { memarg: memarg(idx, 1), lane: 0 }],
+            22 => vec![c0(), c0(), I8x16Splat, V128Store32Lane { memarg: memarg(idx, 2), lane: 0 }],
+            _ => vec![c0(), c0(), I8x16Splat, V128Store64Lane { memarg: memarg(idx, 3), lane: 0 }],
         },
     }
 }
-const NVAR_M: usize = 16;
+const NVAR_M: usize = 24;
 
 /// the same site as text, for the base module
 fn site_wat(sp: Sp, variant: usize, idx: u32, idx2: u32) -> String {
@@ -228,6 +241,15 @@ fn site_wat(sp: Sp, variant: usize, idx: u32, idx2: u32) -> String {
             F64Store { memarg } => format!("f64.store {}", memarg.memory),
             I32AtomicRmwCmpxchg { memarg } => format!("i32.atomic.rmw.cmpxchg {}", memarg.memory),
             MemoryAtomicWait32 { memarg } => format!("memory.atomic.wait32 {}", memarg.memory),
+            I8x16Splat => "i8x16.splat".into(),
+            V128Load8Lane { memarg, lane } => format!("v128.load8_lane {} {lane}", memarg.memory),
+            V128Load16Lane { memarg, lane } => format!("v128.load16_lane {} {lane}", memarg.memory),
+            V128Load32Lane { memarg, lane } => format!("v128.load32_lane {} {lane}", memarg.memory),
+            V128Load64Lane { memarg, lane } => format!("v128.load64_lane {} {lane}", memarg.memory),
+            V128Store8Lane { memarg, lane } => format!("v128.store8_lane {} {lane}", memarg.memory),
+            V128Store16Lane { memarg, lane } => format!("v128.store16_lane {} {lane}", memarg.memory),
+            V128Store32Lane { memarg, lane } => format!("v128.store32_lane {} {lane}", memarg.memory),
+            V128Store64Lane { memarg, lane } => format!("v128.store64_lane {} {lane}", memarg.memory),
             x => panic!("no text for {x:?}"),
         };
         s.push_str(&t);
@@ -264,7 +286,15 @@ fn refs_of(op: &Operator) -> Vec<(Sp, u32)> {
         | I64Load32U { memarg }
         | F64Store { memarg }
         | I32AtomicRmwCmpxchg { memarg }
-        | MemoryAtomicWait32 { memarg } => vec![(Sp::M, memarg.memory)],
+        | MemoryAtomicWait32 { memarg }
+        | V128Load8Lane { memarg, .. }
+        | V128Load16Lane { memarg, .. }
+        | V128Load32Lane { memarg, .. }
+        | V128Load64Lane { memarg, .. }
+        | V128Store8Lane { memarg, .. }
+        | V128Store16Lane { memarg, .. }
+        | V128Store32Lane { memarg, .. }
+        | V128Store64Lane { memarg, .. } => vec![(Sp::M, memarg.memory)],
         _ => vec![],
     }
 }
@@ -551,7 +581,8 @@ fn gen_base(r: &mut Rng, w: &mut World, shape: usize) -> Base {
     let n_gl = r.range(0, 3);
     let n_ml = r.range(if n_mi == 0 { 1 } else { 0 }, 2);
     // two structurally equal function types: imports (parsed, added, converted) are declared with type 0, local functions with type 1
-    let mut wat = String::from("(module\n  (type (func))\n  (type (func))\n");
+    // and a third one that is not final: a function put in the place of an import declared with it has to keep that very type
+    let mut wat = String::from("(module\n  (type (func))\n  (type (func))\n  (type (sub (func)))\n");
     let mut imp_tokens = vec![];
     let mut f_tokens = vec![];
     let mut g_tokens = vec![];
@@ -563,9 +594,15 @@ fn gen_base(r: &mut Rng, w: &mut World, shape: usize) -> Base {
         match k {
             'F' => {
                 let uid = w.ent(Sp::F, true, None);
-                w.handle(Sp::F, ids[0], uid, false);
+                let h = w.handle(Sp::F, ids[0], uid, false);
                 ids[0] += 1;
-                wat.push_str(&format!("  (import \"env\" \"f{uid}\" (func (type 0)))\n"));
+                let ty = if r.chance(1, 4) {
+                    w.subtyped.push((uid, h));
+                    2
+                } else {
+                    0
+                };
+                wat.push_str(&format!("  (import \"env\" \"f{uid}\" (func (type {ty})))\n"));
                 imp_tokens.push(format!("F{uid}"));
                 f_tokens.push(format!("i{uid}"));
             }
@@ -681,9 +718,17 @@ fn gen_base(r: &mut Rng, w: &mut World, shape: usize) -> Base {
                 ginit_tokens.push(format!("{uid}:{}", w.refstr(&s)));
             }
             GKind::RefFunc => {
-                let th = *r.pick(&fh);
+                // preferably a function import of the non-final type, held in a global of exactly that reference type
+                let typed: Vec<usize> = w.subtyped.iter().map(|(_, h)| *h).collect();
+                let th = if !typed.is_empty() && r.chance(2, 3) { *r.pick(&typed) } else { *r.pick(&fh) };
                 let s = w.site(Sp::F, th, Class::GInit { owner: *uid });
-                wat.push_str(&format!("  (global funcref (ref.func {}))\n", w.handles[th].id));
+                let gty = if typed.contains(&th) {
+                    w.typed_global = Some(*uid);
+                    "(ref null 2)"
+                } else {
+                    "funcref"
+                };
+                wat.push_str(&format!("  (global {gty} (ref.func {}))\n", w.handles[th].id));
                 ginit_tokens.push(format!("{uid}:{}", w.refstr(&s)));
             }
             _ => {}
@@ -917,6 +962,8 @@ pub fn run(ctx: &mut Ctx) {
             has_reffunc_global: false,
             allow_meminit: true,
             special_sites: vec![],
+            subtyped: vec![],
+            typed_global: None,
         };
         let shape = match enumerated {
             Some(e) => ((e % 24) / 3) as usize,
@@ -1172,7 +1219,19 @@ pub fn run(ctx: &mut Ctx) {
                         Ok(d) => d,
                         Err(e) => {
                             ctx.impl_line(&format!("edit {case} enc{k}.F=UNDECODABLE"));
-                            failures.push(("C06,C07,C08".into(), "output-undecodable".into(), e));
+                            // an output that cannot be decoded holds none of what the history built or redirected
+                            let hist = op_tokens.join(";");
+                            let mut props = "C06,C07,C08".to_string();
+                            if hist.contains("ri:") {
+                                props.push_str(",C10,C12");
+                            }
+                            if hist.contains("l2i:") {
+                                props.push_str(",C11");
+                            }
+                            if hist.contains("alf:") {
+                                props.push_str(",C12");
+                            }
+                            failures.push((props, "output-undecodable".into(), e));
                             continue;
                         }
                     };
@@ -1219,9 +1278,10 @@ pub fn run(ctx: &mut Ctx) {
                     // (2b) every function import is declared with the type it was given: type 0 (parsed imports, `add_import_func`
                     // and `convert_local_fn_to_import` are all called with TypeID(0); the local functions have the equal type 1)
                     for (u, t) in &d.imp_types {
-                        if *t != 0 {
+                        let declared = if w.subtyped.iter().any(|(x, _)| x.to_string() == *u) { 2 } else { 0 };
+                        if *t != declared {
                             let props = if op_tokens.iter().any(|x| x.starts_with("l2i:")) { "C06,C11" } else { "C06" };
-                            failures.push((props.into(), "F-import-declared-with-another-type".into(), format!("import {u} has type {t}, was given type 0")));
+                            failures.push((props.into(), "F-import-declared-with-another-type".into(), format!("import {u} has type {t}, was given type {declared}")));
                         }
                     }
                     // (3) every live site designates the current entity of its handle
@@ -1291,7 +1351,15 @@ pub fn run(ctx: &mut Ctx) {
                     if let Err(e) = wasmparser::Validator::new_with_features(wasmparser::WasmFeatures::all()).validate_all(out) {
                         let msg = e.to_string();
                         if !msg.contains("undeclared function reference") && failures.is_empty() {
-                            failures.push(("C06,C07,C08".into(), "output-invalid".into(), msg));
+                            let hist = op_tokens.join(";");
+                            let mut props = "C06,C07,C08".to_string();
+                            if hist.contains("ri:") {
+                                props.push_str(",C10");
+                            }
+                            if hist.contains("l2i:") {
+                                props.push_str(",C11");
+                            }
+                            failures.push((props, "output-invalid".into(), msg));
                         }
                     }
                 }
@@ -1617,7 +1685,12 @@ fn gen_op(r: &mut Rng, w: &mut World, import_ids: &HashMap<usize, u32>) -> Op {
                             }
                         }
                         Some(GKind::RefFunc) => {
-                            let fh = w.live_handles(Sp::F);
+                            // a global of the concrete reference type takes functions of that type only
+                            let fh: Vec<usize> = if w.typed_global == Some(e.uid) {
+                                w.live_handles(Sp::F).into_iter().filter(|x| w.subtyped.iter().any(|(_, y)| y == x)).collect()
+                            } else {
+                                w.live_handles(Sp::F)
+                            };
                             if !fh.is_empty() {
                                 let th = *r.pick(&fh);
                                 let s = w.site(Sp::F, th, Class::GInit { owner: e.uid });
